@@ -114,6 +114,8 @@ func fastCRC(c uint16, b []byte) uint16 {
 	return c
 }
 
+var fieldDefOpts = []fit.DecodeOption{fit.WithUnknownMessages(), fit.WithLogger(&countingLogger{}), fit.WithUnknownFields()}
+
 func c01FieldDefs(c *lib.Ctx, idx uint64) {
 	pair := c01Pairs(c.Tier)[idx]
 	// Prefix: 14-byte header, file_id definition (type field only) and data (activity).
@@ -184,7 +186,12 @@ func c01FieldDefs(c *lib.Ctx, idx uint64) {
 				b := build(arch, byte(base), byte(size), 0, 1)
 				r := lib.NewReader(b, lib.Chunker{Kind: "whole"})
 				var res lib.CallResult
-				o := lib.Guard(func() { res = lib.Call("Decode", r) })
+				// for every fourth pair the decodes run with a logger and the unknown-item options
+				var dopts []fit.DecodeOption
+				if idx%4 == 3 {
+					dopts = fieldDefOpts
+				}
+				o := lib.Guard(func() { res = lib.Call("Decode", r, dopts...) })
 				count++
 				if o.Panicked || o.Hang {
 					nv++
